@@ -140,6 +140,7 @@ func check(c Case) ev.Verdict {
 		}
 	}
 	api := calls.ByName(c.Pkg)
+	big := calls.BigIndexPatches(c.Bufs)
 	bufs := make([]*calls.Buf, len(c.Bufs))
 	for i, b := range c.Bufs {
 		bufs[i] = calls.NewBuf(b)
@@ -195,6 +196,9 @@ func check(c Case) ev.Verdict {
 		return d
 	}
 	run := func(step int, cl calls.Call) (calls.Result, error) {
+		if cl.Skips(big) {
+			return calls.Result{}, nil // index above 10^4 under EnsurePathExistsOnAdd: outside the stated domain
+		}
 		var d *decoded
 		if cl.NeedsPatch() {
 			d = decode(cl.B, cl.Fresh)
@@ -261,6 +265,9 @@ func check(c Case) ev.Verdict {
 			continue
 		}
 		cl := c.Calls[i]
+		if cl.Skips(big) {
+			continue
+		}
 		want, err := isolated(c.Pkg, cl, c.Bufs)
 		if err != nil {
 			return ev.Excluded("isolated evaluation unavailable: " + err.Error())
